@@ -6,6 +6,7 @@
    target = export of the best path when filterpath lets it through, nothing otherwise. *)
 From Coq Require Import List ZArith Bool.
 From Verif Require Import Decision.Model Speaker.Model Speaker.Lemmas Speaker.ViewProofs.
+From Verif Require Reset.Model Reset.Proofs.
 Import ListNotations.
 Open Scope Z_scope.
 
@@ -56,3 +57,15 @@ Example C01_nonvacuous :
   map (fun ip => (fst ip, p_up (snd ip), map fst (p_view (snd ip)))) (s_peers st) =
     [(0, true, [8]); (1, true, [7; 8]); (2, true, [7; 8])].
 Proof. vm_compute. reflexivity. Qed.
+
+(* ---- with an export (and import) policy in force: Reset.Model, policy evaluation a parameter.  After every history
+   of announcements, withdrawals and clock steps under fixed policies, each (established) peer holds per destination
+   exactly the selected path that survives loop prevention AND the export policy, carrying the exported attributes;
+   nothing otherwise.  (Sessions stay established in that model; ADD-PATH and route-server clients are outside it.) *)
+Theorem C01_view_exact_under_policy :
+  forall (P : Type) (ev : P -> Z -> Z -> attrs -> option attrs) g peers Ei Ee h q qc,
+  Forall (fun e => @Reset.Model.is_route_event P e = true) h -> Reset.Model.conf_of peers q = Some qc ->
+  let s := Reset.Model.run ev g peers Ei Ee h in
+  forall k, Reset.Model.r_view s q k = Reset.Model.tgt ev g Ee qc k (Reset.Model.best_of g peers (Reset.Model.r_rib s) k).
+Proof. exact @Reset.Proofs.view_exact_under_policy. Qed.
+Print Assumptions C01_view_exact_under_policy.
